@@ -148,10 +148,18 @@ pub fn child(p: &Params) {
             writeln!(o, "START\t{}", i).unwrap();
             o.flush().unwrap();
         }
-        let started = std::time::Instant::now();
+        // CPU time of this thread, not wall clock: a loaded machine must not turn into a verdict
+        let cpu_ms = || -> u128 {
+            let mut ts = libc::timespec { tv_sec: 0, tv_nsec: 0 };
+            unsafe {
+                libc::clock_gettime(libc::CLOCK_THREAD_CPUTIME_ID, &mut ts);
+            }
+            ts.tv_sec as u128 * 1000 + ts.tv_nsec as u128 / 1_000_000
+        };
+        let started = cpu_ms();
         let out = run_input(&inp, &format!("{}/in", p.workdir));
         let mut o = stdout.lock();
-        writeln!(o, "DONE\t{}\t{}\t{}", i, started.elapsed().as_millis(), out).unwrap();
+        writeln!(o, "DONE\t{}\t{}\t{}", i, cpu_ms() - started, out).unwrap();
         o.flush().unwrap();
     }
 }
@@ -535,6 +543,7 @@ fn run_batches(p: &Params, rep: &mut Report, inputs: Vec<Input>) {
                 Ok(l) => l,
                 Err(std::sync::mpsc::RecvTimeoutError::Disconnected) => break,
                 Err(std::sync::mpsc::RecvTimeoutError::Timeout) => {
+                    // wall clock: a watchdog, not a verdict (a loop that burns CPU is caught by RLIMIT_CPU instead)
                     stalled = true;
                     let _ = child.kill();
                     break;
@@ -588,9 +597,11 @@ fn run_batches(p: &Params, rep: &mut Report, inputs: Vec<Input>) {
             // the child died while working on input i
             use std::os::unix::process::ExitStatusExt;
             let inp = batch[i];
-            let how = if stalled {
-                "no-answer-in-180s(blocked)".to_string()
-            } else { match status.signal() {
+            if stalled {
+                rep.inconclusive = Some(format!("child gave no answer for 180 s of wall clock on input {} ({})", i, batch[i].mutation));
+                return;
+            }
+            let how = { match status.signal() {
                 Some(libc::SIGABRT) => "abort(allocation-failure-or-abort)".to_string(),
                 Some(libc::SIGSEGV) => "segfault".to_string(),
                 Some(libc::SIGXCPU) | Some(libc::SIGKILL) => "cpu-limit(does-not-terminate)".to_string(),
@@ -617,7 +628,7 @@ fn run_batches(p: &Params, rep: &mut Report, inputs: Vec<Input>) {
 pub fn run(p: &Params, rep: &mut Report) {
     rep.rule = "valid STAM JSON / STAM CSV / CBOR serialisations of stores reached by seeded histories, mutated: pretty JSON edited line-wise (delete / duplicate / swap lines, extreme numbers, temporary ids with extreme numbers, @type swaps, references rewired to other strings of the document, values retyped, truncation, alignment flips, double edits), CSV cells (empty, surplus, missing, bad numbers, selector-kind lists of the wrong length, doubled lists, cells from other rows, header swapped) in manifest, annotation and dataset files, CBOR truncated at every length <= 512 and beyond, bit flips and length bytes; plus single annotations for AnnotationBuilder::from_json_str, annotation lists for annotate_from_file, datasets for AnnotationDataSet::from_file and strings for the Cursor / Type / SelectorKind / DataFormat parsers. Every input is loaded in a child process (RLIMIT_AS 3 GiB, RLIMIT_CPU 30 s per batch of 200) under catch_unwind; a returned store goes through the dump self-consistency checker, the canonical observation and JSON serialisation. distinct_nontrivial = distinct (loader, mutation, outcome, error class) observed".into();
     rep.assumptions = vec![
-        "time proportional to the input is judged with a bound of 2 s + 1 ms per byte per input".into(),
+        "time proportional to the input is judged on the CPU time of the loading thread with a bound of 2 s + 1 ms per byte per input; 180 s of wall clock without answer makes the run inconclusive".into(),
         "a child that dies is attributed to the input it had announced (START line flushed before each input)".into(),
     ];
     let total: u64 = if p.thorough { 4000 } else { 100 };
